@@ -261,6 +261,7 @@ class Explorer:
         self.intrinsics = set()
         self.samples = []
         self.stop_on_first = getattr(h, 'stop_on_first_violation', True)
+        self.max_violations = getattr(h, 'max_violations', 1)
 
     def machine(self, st, chooser):
         m = self.ctx.machine(chooser)
@@ -391,7 +392,7 @@ class Explorer:
                 for outcome, m, ntrail, inv, viol in res:
                     if outcome == 'violation':
                         self.violations.append((viol, ntrail, m))
-                        if self.stop_on_first:
+                        if self.stop_on_first or len(self.violations) >= self.max_violations:
                             return
                         continue
                     if outcome != 'ok':
@@ -422,7 +423,7 @@ class Explorer:
                         self.h.on_quiescent(m)
                     except Violation as v:
                         self.violations.append((v, ntrail, m))
-                        if self.stop_on_first:
+                        if self.stop_on_first or len(self.violations) >= self.max_violations:
                             return
                     if len(self.samples) < 6:
                         self.samples.append({'trail': ntrail.to_list(), 'final_events': [list(map(_short, e)) for e in m.events[-40:]]})
